@@ -56,7 +56,10 @@ package stake
 //@   requires wf_delg(delegatee)
 //@   ensures result0 >= 0 ==> result0 < len(delegatee.Stakes) && result1 == delegatee.Stakes[result0] && result1 != nil   [C11,C12]
 //@   ensures result0 < 0 ==> result0 == -1 && result1 == nil                                                  [C11]
-//@   loop 0: invariant true
+//@   ensures result0 >= 0 ==> (content(delegatee.Stakes[result0].TxHash) == content(txhash) || (len(delegatee.Stakes[result0].TxHash) == 0 && len(txhash) == 0))   [C11,C12]
+//@   ensures result0 >= 0 ==> (forall i :: 0 <= i && i < result0 ==> !(content(delegatee.Stakes[i].TxHash) == content(txhash) || (len(delegatee.Stakes[i].TxHash) == 0 && len(txhash) == 0)))   [C11,C12]
+//@   ensures result0 < 0 ==> (forall i :: 0 <= i && i < len(delegatee.Stakes) ==> !(content(delegatee.Stakes[i].TxHash) == content(txhash) || (len(delegatee.Stakes[i].TxHash) == 0 && len(txhash) == 0)))   [C11,C12]
+//@   loop 0: invariant forall i :: 0 <= i && i <= rangeindex ==> !(content(delegatee.Stakes[i].TxHash) == content(txhash) || (len(delegatee.Stakes[i].TxHash) == 0 && len(txhash) == 0))
 
 //@ func (delegatee *Delegatee) FindStake(txhash)
 //@   sameas (*Delegatee).findStake
@@ -96,6 +99,8 @@ package stake
 //@   ensures wf_delg(delegatee)                                                                               [C11]
 //@   ensures result != nil ==> delegatee.TotalPower == old(delegatee.TotalPower) - result.Power && len(delegatee.Stakes) == old(len(delegatee.Stakes)) - 1   [C11]
 //@   ensures result == nil ==> delegatee.TotalPower == old(delegatee.TotalPower) && delegatee.SelfPower == old(delegatee.SelfPower) && delegatee.Stakes == old(delegatee.Stakes)   [C11]
+//@   ensures result == nil ==> (forall i :: 0 <= i && i < old(len(delegatee.Stakes)) ==> !(content(old(delegatee.Stakes[i]).TxHash) == content(txhash) || (len(old(delegatee.Stakes[i]).TxHash) == 0 && len(txhash) == 0)))   [C11,C12]
+//@   ensures result != nil ==> (exists i :: 0 <= i && i < old(len(delegatee.Stakes)) && result == old(delegatee.Stakes[i]) && (forall j :: 0 <= j && j < i ==> !(content(old(delegatee.Stakes[j]).TxHash) == content(txhash) || (len(old(delegatee.Stakes[j]).TxHash) == 0 && len(txhash) == 0))) && (content(result.TxHash) == content(txhash) || (len(result.TxHash) == 0 && len(txhash) == 0)))   [C11,C12]
 
 //@ func (delegatee *Delegatee) DelAllStakes()
 //@   nopanic
@@ -202,6 +207,7 @@ package stake
 //@   assert@call(DelStake,0): content(ctx.Tx.From) == content(s0.From)                                        [C12]
 //@   assert@store(Stake.RefundHeight,0): $target == s0 && $value == ctx.Height + govLazyReward[ctx.GovHandler]   [C12]
 //@   assert@store(Stake.RefundHeight,1): $target == _s0 && $value == ctx.Height + govLazyReward[ctx.GovHandler]  [C12,C14]
+//@   after@call(DelStake,0): $result == s0                                                                   [C11,C12]
 //@   assert@call(setUpdateFrozen,0): $arg0 == s0                                                              [C11,C12]
 //@   assert@call(setUpdateFrozen,1): $arg0 == _s0                                                             [C11,C12]
 //@   assert@call(setUpdateDelegatee,0): $arg0 == delegatee                                                    [C11]
@@ -444,3 +450,9 @@ package stake
 //@ func (ctrler *StakeCtrler) InitLedger(req)
 //@   trusted
 //@   modifies everything
+
+// block end of this controller as seen by RigoApp.EndBlock: frame only (its steps are under their own contracts)
+//@ func (ctrler *StakeCtrler) EndBlock(ctx)
+//@   trusted
+//@   modifies everything
+//@   preserves RigoApp.*, BlockContext.feeSum
